@@ -491,7 +491,7 @@ func main() {
 		return "http: " + msg
 	}
 	params := family(c)
-	for i, r := range harness.ExploreBatch("http", params, harness.Pick(c, 1, 2), harness.Pick(c, 20*time.Second, 10*time.Minute), true) {
+	for i, r := range harness.ExploreBatch("http", params, harness.Pick(c, 1, 2), harness.Pick(c, 20*time.Second, 2*time.Minute), true) {
 		if i%23 == 0 {
 			c.Sample(map[string]any{"scenario": r.Param, "executions": r.Stats.Execs, "observations": len(r.Stats.Observations), "bound": r.Stats.BoundCompleted})
 		}
